@@ -266,6 +266,7 @@ func lockBalance(p *Prog, r *Report, rule, rel string, entryHeld map[string]bool
 			byKey := map[string][]opSite{}
 			names := map[string]string{}
 			deferred := map[string]bool{}
+			deferV := map[string]map[int]bool{}
 			for _, v := range fc.G.V {
 				if v.Node == nil {
 					continue
@@ -291,6 +292,10 @@ func lockBalance(p *Prog, r *Report, rule, rel string, entryHeld map[string]bool
 					if isDefer {
 						if op == opUnlock || op == opRUnlock {
 							deferred[k] = true
+							if deferV[k] == nil {
+								deferV[k] = map[int]bool{}
+							}
+							deferV[k][v.ID] = true
 						}
 						return true
 					}
@@ -323,6 +328,27 @@ func lockBalance(p *Prog, r *Report, rule, rel string, entryHeld map[string]bool
 					opName := [...]string{"", "Lock", "Unlock", "RLock", "RUnlock", "TryLock", "TryRLock"}[s.op]
 					siteOrdinal[names[k]+opName]++
 					r.Check(ok, rule, fmt.Sprintf("%s:%s.%s#%d", fc.Name, names[k], opName, siteOrdinal[names[k]+opName]), s.pos, "reached only with the mutex "+want, fmt.Sprintf("%s.%s() is reached with the mutex %s on some path (expected: %s): a path that skips an Unlock ends in a self-deadlock at the next Lock, one that unlocks twice panics", names[k], opName, st, want))
+				}
+				if deferred[k] {
+					// released by a deferred call: the defer (or an explicit unlock) lies on
+					// every path from each Lock to the exit
+					release := map[int]bool{}
+					for v := range deferV[k] {
+						release[v] = true
+					}
+					for _, s2 := range sites {
+						if s2.op == opUnlock || s2.op == opRUnlock {
+							release[s2.v] = true
+						}
+					}
+					for _, s2 := range sites {
+						if s2.op != opLock && s2.op != opRLock {
+							continue
+						}
+						n++
+						leak := fc.G.ReachAfter(s2.v, func(v *Vertex) bool { return release[v.ID] }, nil)[fc.G.Exit]
+						r.Check(!leak, rule, fmt.Sprintf("%s:%s:deferred-release-covers-every-exit", fc.Name, names[k]), s2.pos, "every path from the Lock to the exit registers the deferred Unlock (or unlocks)", "a path from "+names[k]+".Lock() reaches the exit without the deferred Unlock having been registered: the mutex stays locked")
+					}
 				}
 				if !deferred[k] {
 					n++
